@@ -86,7 +86,6 @@ FunctionsOK(e) ==
        /\ lf.control = df.def[1].ops[1].w[1]                             \* "keeps its control mask"
        /\ lf.result = <<[t |-> IndexOf(TypeDecls(e.m), df.def[1].rt[1])]>>   \* "result type"
        /\ Len(lf.blocks) = Len(df.blocks)                                 \* "block count"
-       /\ lf.start = <<[t |-> 0]>>
        /\ \A b \in 1..Len(df.blocks) :
             LET db == df.blocks[b]  phis == SelectSeq(db.insts, IsPhi) IN
             \* "each phi contributes its result type to its block's arguments"
